@@ -57,6 +57,8 @@ def probe(ctx):
             # argv[0] is "/bin/true" (9 bytes): fold it into the count by one extra argument of that length is not exact, so ask the model with
             # n arguments of length L and account for argv[0] through fname twice (string + pointer): conservative by construction
             r = fw.run_lines(fw.FUVM, ["limits kernel %d %d %d %s %d" % (rl, n, L, envl, 9 + 9 + 1 + 8)], shards=1)[0]
+            if r not in ("0", "1"):
+                raise RuntimeError("model runner failed on the kernel probe: %r" % r)
             return r == "1"
         lo, hi = 0, 3_000_000
         while lo < hi:
